@@ -151,8 +151,9 @@ void regexDump(const char *path, int maxTok, int maxLen, vx::Summary &sum)
 // "passes iff the expression matches the message text": the expression is the object the user handed over, options included.
 // Every pattern <= maxTok tokens over an alphabet with blanks, '#', a letter in both cases, '.', '$' and a newline x every option
 // set below x every text; the oracle is the user's own expression object applied to the text.
-void regexOptions(int maxTok, vx::Summary &sum)
+void regexOptions(int maxTok, int shard, int nshards, vx::Summary &sum)
 {
+    long long patNo = 0;
     const char *TOK[] = { "a", "B", " ", "#", ".", "$", "^", "\n", "b*", "(a)", "\\1", "\\w" };
     const int NT = 12;
     typedef QRegularExpression::PatternOption O;
@@ -170,7 +171,7 @@ void regexOptions(int maxTok, vx::Summary &sum)
     std::vector<int> e;
     static QMessageLogContext ctx("f", 1, "fn", "c");
     std::function<void(int)> rec = [&](int left) {
-        if (!e.empty()) {
+        if (!e.empty() && (patNo++ % nshards) == shard) {
             QString re; for (int t : e) re += TOK[t];
             for (int oi = 0; oi < NO; oi++) {
                 QRegularExpression user(re, OPTS[oi]);
@@ -240,7 +241,7 @@ int main(int argc, char **argv)
     sum.bound = "message sequences <= " + std::to_string(depth) + " over 9 texts x 5 types x 2 pipelines (90 messages)";
     if (rx) regexDump(rx, vx::argInt(argc, argv, "--regex-tokens", 3), vx::argInt(argc, argv, "--regex-len", 3), sum);
 
-    if (int rot = vx::argInt(argc, argv, "--regex-options-tokens", 0)) regexOptions(rot, sum);
+    if (int rot = vx::argInt(argc, argv, "--regex-options-tokens", 0)) regexOptions(rot, vx::argInt(argc, argv, "--shard", 0), vx::argInt(argc, argv, "--nshards", 1), sum);
     if (vx::argInt(argc, argv, "--long-runs", 0)) longRuns(sum);
 
     std::set<std::string> seen;
